@@ -1359,7 +1359,7 @@ def reachable_fields(sh):
     return out
 
 
-def probe_writers(case):
+def probe_writers(case, wide=True):
     """run the operations of the case ONE AFTER THE OTHER under a line tracer and report every typedpy line after which the
     attribute dictionary of a Field object reachable from the classes had changed: [(relative path, function, line)].
     Independent of the translator: whatever idiom performs the write (setattr, assignment, __dict__, object.__setattr__,
@@ -1368,6 +1368,23 @@ def probe_writers(case):
     reset_caches(sh)
     run_history(case, sh)
     objs = reachable_fields(sh)
+    # besides the Field objects: the module-level containers of every typedpy module and the attributes of the classes
+    # involved (the Structure classes of the shape, their typedpy bases, the classes of their fields)
+    conts = []
+    for mname, mod in sorted(sys.modules.items()) if wide else []:
+        if mod is not None and (mname == "typedpy" or mname.startswith("typedpy.")):
+            for var, v in sorted(vars(mod).items()):
+                if isinstance(v, (dict, list, set)) and not var.startswith("__"):
+                    conts.append(v)
+    klasses = []
+    for c in sh.classes if wide else []:
+        for b in c.__mro__:
+            if b is not object and b not in klasses and (b.__module__ or "").startswith(("typedpy", __name__.split(".")[0])) or b is c:
+                klasses.append(b)
+    for o in objs if wide else []:
+        for b in type(o).__mro__:
+            if b is not object and b not in klasses and (b.__module__ or "").startswith("typedpy"):
+                klasses.append(b)
 
     def atom(v):
         if isinstance(v, (str, int, float, bool, type(None))):
@@ -1377,7 +1394,9 @@ def probe_writers(case):
         return id(v)
 
     def digest():
-        return [sorted((k, atom(v)) for k, v in vars(o).items()) for o in objs]
+        return ([sorted((k, atom(v)) for k, v in vars(o).items()) for o in objs],
+                [(id(v), len(v)) for v in conts],
+                [[(k, atom(v)) for k, v in vars(b).items()] for b in klasses])
     state = {"d": digest(), "prev": None}
     writers = set()
 
@@ -1541,9 +1560,13 @@ def run_impl(case):
     # the dynamic probe runs for every stream-A case and once per shape (and operation mix) for the other streams
     pkey = (case["shape"], tuple(sorted(th["op"] for th in case["threads"])), json.dumps(case.get("modes", {}), sort_keys=True))
     gaps = []
-    if stream == "A" or pkey not in _PROBED_SHAPES:
+    if stream == "A":
+        gaps = untabled_writers(probe_writers(case, wide=False))
+    elif pkey not in _PROBED_SHAPES:
         _PROBED_SHAPES.add(pkey)
-        gaps = untabled_writers(probe_writers(case))
+        # wide probe (module-level containers and class attributes too): every first occurrence in the thorough tier, a
+        # third of them in the quick tier
+        gaps = untabled_writers(probe_writers(case, wide=case.get("probe") == "wide"))
     return {"seq": seq, "allowed": allowed, "vectors": vectors, "runs": len(runs), "nonseq": nonseq,
             "outcomes": list(distinct.values()), "untabled": gaps}
 
@@ -2036,4 +2059,8 @@ def gen_cases(rng, tier, scale=1.0):
     for sname in (rng.sample(ALL_SHAPES, 11) if quick else ALL_SHAPES):
         for _ in range(reps_b):
             add("B", sname, 3 if rng.random() < 0.2 else 2, max_pre=max_pre, nsched=20 if quick else 35)
+    prng = random.Random(len(cases))     # own generator: the probes do not shift the case stream
+    for c in cases:
+        if c["stream"] != "A" and (not quick or prng.random() < 0.3):
+            c["probe"] = "wide"
     return cases
